@@ -458,8 +458,8 @@ theorem failed_preview_only_records (c : Client) (wr : Nat) (m : Invite) (h1 : m
 /-- the full-strength reading of "accept puts the joiner in exactly the inviter's post-commit state" for
     the group RECORD: after a successful accept the record is at the accepted invitation's epoch … -/
 def accept_record_full : Prop :=
-  ∀ (c c' : Client) (m : Invite), accept c m = (c', .done) →
-    ∀ g, findGroup c'.store m.gid = some g → g.epoch = m.epoch
+  ∀ (c : Client) (m : Invite), (accept c m).2 = .done →
+    ∀ g, findGroup (accept c m).1.store m.gid = some g → g.epoch = m.epoch
 
 /-- … is false: `accept_welcome` keeps whatever record is stored under that group id.  Two invitations to
     the same group are pending (eviction and re-invitation before either was looked at); the newer one
@@ -471,7 +471,7 @@ theorem accept_record_full_false : ¬ accept_record_full := by
   let newer : Invite := { wInv with rid := some 1, epoch := 3, tok := 5 }
   let c1 := (process (Client.empty .sql) 10 wInv).1
   let c2 := (process c1 20 newer).1
-  have := h c2 (accept c2 wInv).1 wInv (by decide) { pendingGroup newer with state := 0 } (by decide)
+  have := h c2 wInv (by decide) { pendingGroup newer with state := 0 } (by decide)
   revert this; decide
 
 /-! ## 6. the tie to the source -/
